@@ -39,11 +39,19 @@ SIZES = (50, 128, 206, 480, 1024, 1476)
 
 def _payload_for_service_data(total):
     """payload length whose ConfirmedPrivateTransfer service data is `total` octets (vendor 999, one-octet service number)"""
+    from bv.refs.segmon import private_transfer_data
+    best = None
     for n in range(max(0, total - 16), total):
-        from bv.refs.segmon import private_transfer_data
-        if len(private_transfer_data(1, b"\0" * n)) == total:
+        got = len(private_transfer_data(1, b"\0" * n))
+        if got == total:
             return n
-    raise ValueError(total)
+        if got < total:
+            best = n
+    # the octet-string header grows from 2 to 4 octets at 254 octets of content: two totals cannot be produced at all;
+    # the nearest length below is used (the last segment is then two octets short of full)
+    if best is None:
+        raise ValueError(total)
+    return best
 
 
 def rq(k, seg=50):
